@@ -1832,4 +1832,28 @@ def check(rep, tier, seed):
         # an acknowledged write that a range at "latest" does not return yet (parked earlier writer): known finding
         from . import c16ack
         found = c16ack.check(rep, tier)
+    if not found:
+        found = follower_watch_check(rep, tier)
     return found
+
+
+def follower_watch_check(rep, tier):
+    """The watch clause through a FOLLOWER (suite `roles`, `fwd watch`): kube-apiserver may be connected to a node that is not
+    the leader; its prev_kv prefix watch is forwarded by the follower's etcd proxy to the leader. A create, an update and a
+    delete at the leader must reach the client as PUT / PUT / DELETE events, the DELETE with the previous key-value."""
+    from . import c18
+    lines = ["cfg init=%d" % c18.INIT] + ["fwd watch k=%d%s" % (k, d) for k, d in ((1, ""), (2, " delay=60"), (3, ""))][:2 if tier == "quick" else 3]
+    c = core.Case(c18.SUITE, lines, {"part": "forward"})
+    core.run_cases([c])
+    rep.count_case(c)
+    for i, (line, out) in enumerate(zip(c.lines, c.impl or [])):
+        o = out.split()
+        if o[:3] == ["fwd", "watch", "created"] and "delivered=1" in o and "prev=1" not in o:
+            desc = ("line %d: %s -> %s: a prev_kv watch served through a follower (forwarded to the leader by the etcd proxy): the update / "
+                    "delete at the leader reached the client %s" % (i + 1, line, out, "not at all" if "prev=lost" in o else
+                                                                    "as events WITHOUT the previous key-value"))
+            return core.handle_oracle_hit(rep, "C16", "follower-watch-event-without-prev-kv", c, desc, "follower-watch-event-without-prev-kv")
+    if c.diff() is not None:
+        core.handle_diff(rep, "C16", "correspondence-follower-watch", c)
+        return True
+    return False
